@@ -154,7 +154,7 @@ def bias_tolerance(crit, alpha, rmse=1.0):
 def _budget(sh, case):
     crit = _criteria()
     share = variance_share(crit)
-    for alpha in (0.5, 1.0, 2.0):
+    for alpha in (0.1, 0.25, 0.4, 0.5, 1.0, 2.0):  # weak rates below 0.5 are legitimate (Blumenthal-Getoor index above 1)
         for rmse in RMSES:
             sh.count("evaluations")
             tol = bias_tolerance(crit, alpha, rmse)
@@ -164,7 +164,7 @@ def _budget(sh, case):
                 continue
             total = tol ** 2 + share
             if total > 1 + 1e-6:
-                sh.violation("C06:budget:bias-tolerance-squared-plus-variance-share-exceeds-rmse-squared",
+                sh.violation(f"C06:budget:bias-tolerance-squared-plus-variance-share-exceeds-rmse-squared:{'alpha<0.5' if alpha < 0.5 else 'alpha>=0.5'}",
                              f"alpha={alpha}, rmse={rmse}: accepted bias {tol:.6f} rmse (squared {tol ** 2:.4f}) + variance share "
                              f"{share:.4f} = {total:.4f} > 1", {"tol": tol, "share": share})
     sh.nontriv()
@@ -174,7 +174,7 @@ def _budget(sh, case):
 def _shape(sh, case):
     crit = _criteria()
     vals = [1e-3, 1e-2, 1e-1, 1.0]
-    for alpha in (0.5, 1.0, 2.0):
+    for alpha in (0.25, 0.5, 1.0, 2.0):
         for rmse in (1.0, 0.1):
             acc = {}
             for ml in itertools.product(vals, repeat=3):
@@ -266,6 +266,22 @@ def run_once(sh, case, chooser):
     if top_next > Lmax:
         sh.violation("C06:loop:created-a-level-above-the-maximum", f"next_level up to {top_next} > maximum_level {Lmax}",
                      {"regimes": regimes[:40]})
+    # the weak rate handed to the stopping test: the configured one, or the regression of the very ml vector it is tested on
+    # (slope of log2(ml[1:]) against the level, floored at 0.5 - the estimator the engine documents)
+    for (alpha_used, ml_used, verdict) in calls["criteria"]:
+        if case.get("rates", "given") == "given":
+            alpha_ref = 1.0
+        else:
+            y = np.log2(np.array(ml_used[1:], dtype=float)) if len(ml_used) > 1 else np.array([])
+            if y.size < 2 or not np.all(np.isfinite(y)):
+                continue
+            slope = np.polyfit(np.arange(1, len(ml_used)), y, 1)[0]
+            alpha_ref = max(0.5, -float(slope))
+        if not core.close(alpha_used, alpha_ref, rtol=1e-6, atol=1e-9):
+            sh.violation(f"C06:loop:stopping-test-evaluated-with-another-weak-rate:{case.get('rates', 'given')}",
+                         f"criteria called with alpha={alpha_used!r} on ml={ml_used}; the {'configured' if case.get('rates', 'given') == 'given' else 'regressed'} weak rate is {alpha_ref!r}",
+                         {"regimes": regimes[:40]})
+            break
     traj = ()
     if stats is not None:
         res = stats.mlmc_results
